@@ -523,7 +523,7 @@ func (e *Enc) loopHead(fr *Frame, li *loopInfo, st *State, reach string, ins []i
 		srt := e.keySort[w.Key]
 		if w.Key == "$alloc" {
 			n := e.fresh("alloc", bv64)
-			e.assume(app("bvule", e.getRaw(&pre, w.Key), n))
+			e.assume(and(app("bvule", e.getRaw(&pre, w.Key), n), app("bvult", n, bvLit(bigPow2(63), 64))))
 			st.cur[w.Key] = n
 			continue
 		}
@@ -566,11 +566,6 @@ func (e *Enc) loopBack(fr *Frame, li *loopInfo, from *ssa.BasicBlock, st State, 
 	edge = e.define("back", BoolS(), edge)
 	invs, dec := fr.loopClauses(li)
 	invs = append(invs, e.autoInvs(fr, li)...)
-	// variant at head
-	var decHead Val
-	if dec != nil {
-		decHead = e.evalClauseValAt(fr, dec, b, fr.headSt[b])
-	}
 	// bind phis to back-edge values
 	saved := map[*ssa.Phi]Val{}
 	pi := -1
@@ -600,15 +595,42 @@ func (e *Enc) loopBack(fr *Frame, li *loopInfo, from *ssa.BasicBlock, st State, 
 		e.oblig(fmt.Sprintf("inv-pres:%d", li.ordinal), clauseSlug(c, i), edge, t, token.NoPos, append([]string{"inv"}, c.Tags...), c.Text, c)
 	}
 	if dec != nil {
-		decNext := e.evalClauseValAt(fr, dec, b, st)
-		var cond string
-		if decHead.C != nil || decNext.C != nil || len(decHead.L) != 1 {
+		// lexicographic measure: components separated by top-level commas
+		comps := decComponents(dec)
+		var heads, nexts []Val
+		okc := true
+		for phi, v := range saved {
+			fr.env[phi] = v
+		}
+		for _, c := range comps {
+			heads = append(heads, e.evalClauseValAt(fr, c, b, fr.headSt[b]))
+		}
+		for phi, v := range next {
+			fr.env[phi] = v
+		}
+		for _, c := range comps {
+			nexts = append(nexts, e.evalClauseValAt(fr, c, b, st))
+		}
+		for k := range comps {
+			if heads[k].C != nil || nexts[k].C != nil || len(heads[k].L) != 1 || !isInt(heads[k].T) {
+				okc = false
+			}
+		}
+		if !okc {
 			e.fatalf("decreases clause of loop %d is not an integer expression", li.ordinal)
 		} else {
-			if isSigned(decHead.T) {
-				cond = and(app("bvslt", decNext.L[0], decHead.L[0]), app("bvsle", bvInt(0, widthOf(decHead.T)), decHead.L[0]))
-			} else {
-				cond = app("bvult", decNext.L[0], decHead.L[0])
+			cond := "false"
+			prefixEq := "true"
+			for k := range comps {
+				h, n := heads[k], nexts[k]
+				var less string
+				if isSigned(h.T) {
+					less = and(app("bvslt", n.L[0], h.L[0]), app("bvsle", bvInt(0, widthOf(h.T)), h.L[0]))
+				} else {
+					less = app("bvult", n.L[0], h.L[0])
+				}
+				cond = or(cond, and(prefixEq, less))
+				prefixEq = and(prefixEq, eq(n.L[0], h.L[0]))
 			}
 			e.oblig(fmt.Sprintf("dec:%d", li.ordinal), clauseSlug(dec, 0), edge, cond, token.NoPos, []string{"term"}, dec.Text, dec)
 		}
@@ -906,3 +928,20 @@ func (fr *Frame) deepestDef(obj types.Object, name string, at *ssa.BasicBlock, a
 
 // scratch fields
 func init() {}
+
+// decComponents splits "a, b" into component clauses (lexicographic order).
+func decComponents(dec *Clause) []*Clause {
+	parts := splitTop(dec.Text, ',')
+	if len(parts) == 1 {
+		return []*Clause{dec}
+	}
+	var out []*Clause
+	for _, p := range parts {
+		f, err := parseFormula(strings.TrimSpace(p))
+		if err != nil {
+			return []*Clause{dec}
+		}
+		out = append(out, &Clause{Kind: "decreases", F: f, Text: strings.TrimSpace(p), Loop: dec.Loop, File: dec.File, Line: dec.Line})
+	}
+	return out
+}
